@@ -181,6 +181,7 @@ def gen_case(rng):
             'dur_column': dosing and rng.random() < 0.7,
             'fix': rng.random() < 0.35, 'extra_column': rng.random() < 0.5,
             'pop': rng.choice(['gauss', 'mixed', 'pooled_first']), 'seed': rng.randrange(10 ** 6)}
+    case['index'] = rng.choice(['range', 'range', 'per-individual', 'constant', 'reversed'])
     return case
 
 
@@ -203,6 +204,19 @@ def frame(case, rows=None, id_dtype=None):
     df = pd.DataFrame(data)
     if dt == 'object':
         df[keys['id']] = df[keys['id']].astype(object)
+    # row labels carry no meaning: frames glued together with pd.concat repeat them
+    mode = case.get('index', 'range')
+    if mode == 'per-individual':
+        seen = {}
+        labels = []
+        for r in rows:
+            labels.append(seen.get(str(r['id']), 0))
+            seen[str(r['id'])] = labels[-1] + 1
+        df.index = labels
+    elif mode == 'constant':
+        df.index = [0] * len(df)
+    elif mode == 'reversed':
+        df.index = list(range(len(df)))[::-1]
     return df, keys
 
 
